@@ -1287,6 +1287,30 @@ def run_locators(ctx):
                     ctx.fail("locator-indices-roundtrip", "grid[i, j, k] is the locator of cell (i, j, k) of that grid: indices, "
                              "complete indices (top-level grid) and equality give the cell back", case,
                              observed=[(loc.i, loc.j, loc.k), list(loc.indices), loc.grid is g])
+                # every argument form of the index-taking queries: tuple / list / numpy indices / complete indices
+                forms = [("3-tuple", (i, j, k)), ("list", [i, j, k]), ("locator.indices", loc.indices),
+                         ("getCompleteIndices()", loc.getCompleteIndices())]
+                c0 = [float(v) for v in g.getCoordinates((i, j, k))]
+                for fname, arg in forms:
+                    for q in ("getCoordinates", "getCellBase", "getCellTop"):
+                        if name == "theta-R-Z" and q != "getCoordinates":
+                            continue
+                        a = impl_vec(getattr(g, q), arg)
+                        b = impl_vec(getattr(g, q), (i, j, k))
+                        if not same_vec(a, b):
+                            ctx.fail("query-argument-form", f"{q} gives the same answer for every way of handing over the cell",
+                                     {**case, "argument": fname}, observed=a, expected=b)
+                    if has_rp and tuple(int(v) for v in g.getRingPos(arg)) != tuple(int(v) for v in g.getRingPos((i, j))):
+                        ctx.fail("query-argument-form", "getRingPos((i, j, k)) == getRingPos((i, j)) for every argument form and every k",
+                                 {**case, "argument": fname}, observed=tuple(g.getRingPos(arg)))
+                if name.startswith("hex"):
+                    nb = g.getNeighboringCellIndices(i, j, k)
+                    if [t[:2] for t in nb] != [t[:2] for t in g.getNeighboringCellIndices(i, j, 0)] or any(int(t[2]) != k for t in nb):
+                        ctx.fail("hex-neighbours-keep-plane", "the six neighbours of (i, j, k) are the in-plane neighbours at the same k",
+                                 case, observed=[tuple(int(v) for v in t) for t in nb])
+                    if g.getLabel((i, j, k))[:7] != g.getLabel((i, j)):
+                        ctx.fail("query-argument-form", "the label of (i, j, k) starts with the label of (i, j)", case,
+                                 observed=[g.getLabel((i, j, k)), g.getLabel((i, j))])
                 if has_rp:
                     rp = tuple(int(v) for v in loc.getRingPos())
                     if rp != tuple(int(v) for v in g.getRingPos((i, j, k))):
